@@ -15,6 +15,14 @@ static Json::Value strs(const std::vector<std::string>& v) {
   return a;
 }
 
+// a path obtained through getParent / getChild must be indistinguishable from the one constructed from its own
+// (fs root, relative path): same absolute path, same parts, equal, same hash
+static bool canonical(const CgroupPath& q) {
+  CgroupPath fresh(q.cgroupFs(), q.relativePath());
+  return fresh.absolutePath() == q.absolutePath() && fresh.relativePathParts() == q.relativePathParts() && fresh == q &&
+      !(fresh != q) && std::hash<CgroupPath>()(fresh) == std::hash<CgroupPath>()(q) && fresh.isRoot() == q.isRoot();
+}
+
 static void doPath(const Json::Value& sc, Json::Value& out) {
   CgroupPath p(sc["fs"].asString(), sc["s"].asString());
   out["parts"] = strs(p.relativePathParts());
@@ -23,11 +31,15 @@ static void doPath(const Json::Value& sc, Json::Value& out) {
   out["fs"] = p.cgroupFs();
   out["root"] = p.isRoot();
   try {
-    out["parent"] = p.getParent().relativePath();
+    CgroupPath par = p.getParent();
+    out["parent"] = par.relativePath();
+    out["parent_abs"] = par.absolutePath();
+    out["parent_canon"] = canonical(par);
   } catch (const std::invalid_argument&) {
     out["parent"] = Json::nullValue;
   }
   CgroupPath ch = p.getChild(sc["child"].asString());
+  out["child_canon"] = canonical(ch);
   out["child_parts"] = strs(ch.relativePathParts());
   out["child_abs"] = ch.absolutePath();
   // re-parse the relative path under the same fs root
@@ -49,6 +61,8 @@ static void doPath(const Json::Value& sc, Json::Value& out) {
     out["child_back"] = Json::nullValue;
   } else {
     out["child_back"] = back.relativePath();
+    out["child_back_abs"] = back.absolutePath();
+    out["child_back_canon"] = canonical(back) && back == p && std::hash<CgroupPath>()(back) == std::hash<CgroupPath>()(p);
   }
 }
 
